@@ -4,3 +4,5 @@ import ArcheGen.Arith
 import ArcheGen.Facts
 import ArcheGen.Pool256
 import ArcheGen.Pool64
+import ArcheGen.Lst256
+import ArcheGen.Lst64
